@@ -16,8 +16,9 @@
     without releasing the mutex" is the special case where the next model step
     is taken by a worker at once, so every C interleaving is a model run.
   * Guards / thresholds / priorities are the GENERATED ones (`Gen.SchedD`).
-  * The code is modelled AS IT IS, including the lifecycle gaps of overtaken
-    speculative jobs (DESIGN 7.1 F2, F4, F5).  Ghost fields (never read by a
+  * The code is modelled AS IT IS (tree with the `pos_le` repair of `can_emit`
+    and with `discard()`: F2 and F5 of DESIGN 7.1 are repaired, F4 — stale
+    entries of unord_q holding no resource — is still there).  Ghost fields (never read by a
     guard): `gnext`, `Job.corrupt` …, `taint`.
   * Heap objects are values: a `struct unord_blk` is carried by the retrieve
     job that owns it (`Job.ub`, = `rb->unord_link`) while that job exists and
@@ -125,6 +126,7 @@ structure UB where            -- an unord_blk whose retrieve job no longer exist
   base : Nat
   f : UF
   corrupt : Bool              -- ghost
+  dropped : Bool              -- ghost: left behind by `discard()` (holds no resource)
   deriving DecidableEq, Repr, Hashable
 
 structure Job where           -- struct retr_blk
@@ -290,11 +292,16 @@ def newHead (c : Cfg) (s : State) (p : Nat) : Nat :=
 def releaseCount (s : State) (h h' : Nat) : Nat :=
   ((List.range' h (h' - h)).filter (fun k => !attachedTo s k)).length
 
-/-- the unord_blk a dropped / exiting job leaves behind -/
+/-- `discard(rb)`, the unord_blk side ("whoever comes second frees"): if the
+    parser has already flagged the entry (`complete`) it is freed with the
+    job; otherwise it stays behind in unord_q marked `complete`, and the
+    parser frees it when it pops it. -/
 def Job.orphan (j : Job) : List UB :=
   match j.ub with
   | none => []
-  | some f => [{ base := j.base, f := f, corrupt := j.corrupt }]
+  | some f =>
+    if f.complete then []
+    else [{ base := j.base, f := { f with complete := true }, corrupt := j.corrupt, dropped := true }]
 
 /-- `advance(bs)`. -/
 def advance (c : Cfg) (s : State) (p : Nat) : State :=
@@ -517,8 +524,8 @@ def stepRetrStart (c : Cfg) (s : State) (j : Job) : Option State :=
 /-- the job is (now) the master: created by the parser, or confirmed by it -/
 def Job.master (j : Job) : Bool := match j.ub with | none => true | some f => f.complete
 
-/-- early returns of `do_retrieve` (parsing_done / "found himself redundant"):
-    the job is freed, its unord_blk is not -/
+/-- `discard(rb)` on the early returns of `do_retrieve` (parsing_done / "found
+    himself redundant" / "was overtaken") -/
 def retrExit (s1 : State) (j : Job) : State :=
   { s1 with wu := s1.wu + 1, orphans := j.orphan ++ s1.orphans }
 
@@ -561,7 +568,7 @@ def retrDone (c : Cfg) (s2 : State) (j : Job) (newc : Nat) : State :=
               orphans :=
                 (match j.ub with
                  | some f => [{ base := j.base, f := { f with complete := true, endp := newc },
-                                corrupt := j.corrupt }]
+                                corrupt := j.corrupt, dropped := false }]
                  | none => []) ++ s2.orphans }
 
 /-- `do_retrieve` from the `sched_lock` in `detach` to the `sched_unlock`
@@ -572,7 +579,11 @@ def stepRetrEnd (c : Cfg) (s : State) (j : Job) (k : Option Nat) : Option State 
     let s1 := detach { s with busy := s.busy.erase (.retr j k) } k
     if s1.pdone then some (retrExit s1 j)
     else if j.redundant then some (retrExit s1 j)
-    else if !decide ((rres c j.base).e ≤ newc) then some (retrMore (retrMove c s1 j newc) j newc)
+    else if !decide ((rres c j.base).e ≤ newc) then
+      -- rv == MORE
+      if newc < headOffs c (retrMove c s1 j newc) then
+        some (retrExit (retrMove c s1 j newc) (retrMoreJob j newc))   -- "Retriever was overtaken"
+      else some (retrMore (retrMove c s1 j newc) j newc)
     else some (retrDone c (retrMove c s1 j newc) j newc)
   else none
 
@@ -717,7 +728,7 @@ def unordSize (s : State) : Nat :=
 def unordCapOf (c : Cfg) : Nat := unordCap c.n c.totalOut
 
 /-- entries of unord_q whose job `advance()` dropped: they hold no resource (F4) -/
-def staleCount (s : State) : Nat := s.orphans.countP (fun u => u.f.inq && !u.f.complete)
+def staleCount (s : State) : Nat := s.orphans.countP (fun u => u.f.inq && u.dropped)
 
 /-- F5: a retrieve job is queued behind `head_offs` -/
 def staleAttach (c : Cfg) (s : State) : Bool := s.retrQ.any (fun j => j.curr < headOffs c s)
